@@ -68,9 +68,13 @@ Step ==
                                /\ UNCHANGED <<cfg, clog, voted, tsigned, votesFor, tsigners, offered, xlog, digests, outcomes, healInfo>>
          [] Line.op = "relead" -> /\ cfg' = [cfg EXCEPT !.leaders = Line.leaders]
                                   /\ UNCHANGED <<reg, clog, voted, tsigned, votesFor, tsigners, offered, xlog, digests, outcomes, healInfo>>
+         [] Line.op = "pause" ->          \* the clients stop sending: the premise "commands are available" is off until the next heal line
+              /\ healInfo' = [on |-> FALSE]
+              /\ UNCHANGED <<cfg, reg, clog, voted, tsigned, votesFor, tsigners, offered, xlog, digests, outcomes>>
          [] Line.op = "heal" ->
-              /\ healInfo' = [on |-> TRUE, members |-> ToSet(Line.members), view |-> Line.view, len |-> [r \in Nodes |-> Len(clog[r])], ff |-> Line.faultfree,
-                               fired |-> [r \in Nodes |-> 0]]
+              /\ healInfo' = [on |-> TRUE, members |-> ToSet(Line.members), view |-> Line.view, ff |-> Line.faultfree,
+                               last |-> [r \in Nodes |-> Line.view],      \* the view in which r committed last (the heal view to begin with)
+                               fired |-> [r \in Nodes |-> 0]]             \* expiries of r's view timer since then
               /\ cfg' = [cfg EXCEPT !.leaders = Line.leaders]
               /\ UNCHANGED <<reg, clog, voted, tsigned, votesFor, tsigners, offered, xlog, digests, outcomes>>
          [] Line.op = "step" ->
@@ -86,7 +90,9 @@ Step ==
                  /\ xlog' = [xlog EXCEPT ![n] = DedupAppend(@, Line.exec)]
                  /\ digests' = Ext(digests, {Line.count}, Line.digest)
                  /\ outcomes' = [outcomes EXCEPT ![n] = @ \cup {<<Line.outcomes[i][1], Line.outcomes[i][2]>> : i \in 1..Len(Line.outcomes)}]
-                 /\ healInfo' = IF healInfo.on /\ Line.kind = "timeout" THEN [healInfo EXCEPT !.fired[n] = @ + 1] ELSE healInfo
+                 /\ healInfo' = IF ~healInfo.on THEN healInfo
+                                ELSE IF Line.commits # <<>> THEN [healInfo EXCEPT !.last[n] = Line.post.view, !.fired[n] = 0]
+                                ELSE IF Line.kind = "timeout" THEN [healInfo EXCEPT !.fired[n] = @ + 1] ELSE healInfo
                  /\ UNCHANGED cfg
          [] OTHER -> UNCHANGED <<cfg, reg, clog, voted, tsigned, votesFor, tsigners, offered, xlog, digests, outcomes, healInfo>>
 Spec == Init /\ [][Step]_vars
@@ -169,12 +175,13 @@ P_C06 == [][C06Step]_vars
 \* ================= C05 ============================================================================
 \* once the live quorum has run B views beyond the heal, every member has committed something new
 Bound == 3 * (cfg.chain + 1)
-\* "within a bounded number of views": a view lasts at most one timer period, so a member is overdue when it is Bound views
-\* beyond the heal, or when its view timer has expired 2 * Bound times since the heal (it may be stuck in one view: that is a
-\* stall, not an excuse)
+\* "commits new blocks again within a bounded number of views": from the heal on a member never goes Bound views without
+\* committing a block.  A view lasts at most one timer period, so it is equally overdue when its view timer has expired
+\* 2 * Bound times since its last commit (it may be stuck in one view: that is a stall, not an excuse).
 C05Step == (IsStep /\ healInfo.on) =>
-    ((Line.node \in healInfo.members /\ (Line.post.view >= healInfo.view + Bound \/ healInfo'.fired[Line.node] >= 2 * Bound))
-        => Len(clog'[Line.node]) > healInfo.len[Line.node])
+    (Line.node \in healInfo.members =>
+        /\ Line.post.view < healInfo'.last[Line.node] + Bound
+        /\ healInfo'.fired[Line.node] < 2 * Bound)
 \* fault-free synchronous run: every view adds a certified block on top of the previous view's block, nobody times
 \* out, and when a replica handles the proposal of view v its committed block is the one of view v - ChainLength
 FaultFreeStep == (IsStep /\ healInfo.on /\ healInfo.ff) =>
